@@ -41,6 +41,7 @@ func init() {
 			{ID: "R09s", Floor: 1, Doc: "the read methods of the stores allocate no slice of a computed length themselves: the size store.FindCid reports without reading is unchecked (possibly negative, possibly what a crafted length prefix asks for)", Run: ruleR09s},
 			{ID: "R09t", Floor: 1, Doc: "the CLI allocates no slice sized by a length prefix it decoded itself (its own section walks have no size limit because they stream)", Run: ruleR09t},
 			{ID: "R09u", Floor: 8, Doc: "sections are decoded by the framing routines of the pinned shapes, whose CID decoder bounds what it allocates (= R01b)", Run: ruleR01b},
+			{ID: "R09w", Floor: 1, Doc: "Inspect holds a section's length against MaxAllowedSectionSize before it parses the section's CID: no cid.CidFromReader on a path that has not passed the limit", Run: ruleR09w},
 			{ID: "R09f", Floor: 1, Doc: "singleWidthIndex.Unmarshal: bucket bytes come from an exact-length read of dataLen with its error tested", Run: ruleR09f},
 			{ID: "R09m", Floor: 2, Doc: "the CARv2 payload is read through a reader bounded by the header-declared size that can never run negative or past the source (= R14a)", Run: ruleR14a},
 			{ID: "R09n", Floor: 1, Doc: "a reader that has released its pooled buffer does not touch it again: the field is cleared with the release (polling a drained reader once more must answer io.EOF, not panic in bufio) (= R01m)", Run: ruleR01m},
@@ -1359,6 +1360,9 @@ func uncheckedAsserts(c *Ctx) map[string]string {
 			if types.Identical(ta.AssertedType, ta.X.Type()) {
 				return
 			}
+			if assertionCannotFail(fn, ta) {
+				return
+			}
 			k := fnKey(rootFuncOf(fn)) + " -> " + pinnedTypeNames(assertedTypeKey(ta.AssertedType))
 			out[k] = c.Pos(ta.Pos())
 		})
@@ -1465,4 +1469,78 @@ func structCopyOf(dst, src ssa.Value, f *types.Var) bool {
 		}
 	}
 	return n > 0
+}
+
+// assertionCannotFail: the asserted type is an interface, and every value that can reach the
+// assertion on a live path is a concrete value whose type implements it, or an interface value
+// whose static type already has all its methods (the result of a successful comma-ok assertion
+// to a wider interface, a constructor's result).
+func assertionCannotFail(fn *ssa.Function, ta *ssa.TypeAssert) bool {
+	want, ok := ta.AssertedType.Underlying().(*types.Interface)
+	if !ok {
+		return false
+	}
+	live := reach(fn, nil, nil)
+	seen := map[ssa.Value]bool{}
+	var okv func(v ssa.Value, depth int) bool
+	okv = func(v ssa.Value, depth int) bool {
+		if v == nil || depth > 8 {
+			return false
+		}
+		if seen[v] {
+			return true
+		}
+		seen[v] = true
+		if it, isI := v.Type().Underlying().(*types.Interface); isI && types.Implements(v.Type(), want) && it.NumMethods() > 0 {
+			if k, isK := v.(*ssa.Const); isK && k.IsNil() {
+				return false
+			}
+			return true
+		}
+		switch x := v.(type) {
+		case *ssa.MakeInterface:
+			return types.Implements(x.X.Type(), want)
+		case *ssa.ChangeInterface:
+			return okv(x.X, depth+1)
+		case *ssa.Phi:
+			n := 0
+			onSuccess := map[ssa.Value]bool{}
+			for _, l := range phiLive(x) {
+				onSuccess[l] = true
+			}
+			for i, e := range x.Edges {
+				if !live[x.Block().Preds[i]] || !onSuccess[e] {
+					continue // a dead branch, or a zero that travels with an error
+				}
+				n++
+				if !okv(e, depth+1) {
+					return false
+				}
+			}
+			return n > 0
+		case *ssa.UnOp:
+			if x.Op == token.MUL {
+				if al, isAl := x.X.(*ssa.Alloc); isAl {
+					sts := storesTo(al)
+					n := 0
+					for _, st := range sts {
+						if !live[st.Block()] {
+							continue
+						}
+						n++
+						if !okv(st.Val, depth+1) {
+							return false
+						}
+					}
+					return n > 0
+				}
+			}
+		case *ssa.Extract:
+			if t2, isTA := x.Tuple.(*ssa.TypeAssert); isTA && x.Index == 0 {
+				return types.Implements(t2.AssertedType, want) || types.Identical(t2.AssertedType, ta.AssertedType)
+			}
+		}
+		return false
+	}
+	return okv(ta.X, 0)
 }
